@@ -45,6 +45,7 @@ type world struct {
 	accepted  int
 	fdLimit   int // > 0: accept fails with EMFILE while this many server-side endpoints are open
 	emfile    int // accepts refused for lack of descriptors
+	closeGen  int // number of server-side endpoints closed so far
 }
 
 var w *world
@@ -101,6 +102,8 @@ type listener struct {
 	port    int
 	backlog []*conn
 	closed  bool
+	// emfileGen: closeGen+1 at the moment this listener last reported EMFILE (0 = never)
+	emfileGen int
 }
 
 // ListenConfig stands in for net.ListenConfig: socket options (Control) have no counterpart in the model - in
@@ -154,13 +157,20 @@ func (l *listener) Accept() (net.Conn, error) {
 	}
 	l.o.RMW()
 	defer l.o.RMW()
-	vrt.Point("Listener.Accept", func() bool { return len(l.backlog) > 0 || l.closed })
+	// descriptor exhaustion is reported once per state: a caller that tries again while no descriptor has been
+	// freed in between gets the same answer for ever, so the retry waits here until a server-side endpoint is
+	// closed (a loop of identical failures is stuttering; modelling it as a wait keeps executions finite)
+	atLimit := func() bool { return w.fdLimit > 0 && len(OpenServerEndpoints()) >= w.fdLimit }
+	vrt.Point("Listener.Accept", func() bool {
+		return l.closed || len(l.backlog) > 0 && (!atLimit() || l.emfileGen != w.closeGen+1)
+	})
 	l.o.Touch(1)
 	if l.closed {
 		return nil, opErr("accept", errClosed)
 	}
-	if w.fdLimit > 0 && len(OpenServerEndpoints()) >= w.fdLimit {
-		// descriptor exhaustion: accept(2) fails with EMFILE and the connection stays in the backlog
+	if atLimit() {
+		// accept(2) fails with EMFILE and the connection stays in the backlog
+		l.emfileGen = w.closeGen + 1
 		w.emfile++
 		vrt.Logf("env: accept fails, too many open files")
 		return nil, &net.OpError{Op: "accept", Net: "tcp", Err: os.NewSyscallError("accept4", syscall.EMFILE)}
@@ -226,6 +236,7 @@ type conn struct {
 	peer    *conn
 	closed  bool // closed locally
 	peerFIN bool // the peer closed: EOF after the buffered data
+	wclosed bool // CloseWrite was called on this side
 	reset   bool // connection reset by peer
 	rdl     time.Time
 	wdl     time.Time
@@ -344,6 +355,8 @@ func (c *conn) Write(p []byte) (int, error) {
 		switch {
 		case c.closed:
 			return written, opErr("write", errClosed)
+		case c.wclosed:
+			return written, opErr("write", errors.New("write: broken pipe"))
 		case c.expired(c.wdl):
 			return written, opErr("write", timeoutErr{})
 		case c.reset:
@@ -387,8 +400,29 @@ func (c *conn) Close() error {
 	c.peer.peerFIN = true
 	c.peer.o.Touch(5)
 	if c.server {
+		w.closeGen++
+		w.o.Touch(7)
 		vrt.Logf("env: server closed %s", c.name)
 	}
+	return nil
+}
+
+// CloseWrite shuts down the sending side (as *net.TCPConn does): the peer reads EOF after what is buffered,
+// this side can still read.
+func (c *conn) CloseWrite() error {
+	if vrt.InTeardown() {
+		return nil
+	}
+	c.o.RMW()
+	defer c.o.RMW()
+	vrt.Point(c.name+".CloseWrite", nil)
+	c.o.Touch(11)
+	if c.closed {
+		return opErr("close", errClosed)
+	}
+	c.wclosed = true
+	c.peer.peerFIN = true
+	c.peer.o.Touch(5)
 	return nil
 }
 
@@ -461,6 +495,9 @@ func (c *Client) SetTap(f func(fromServer bool, b []byte)) { c.conn.Tap = f }
 
 // ServerClosed reports whether the server closed its end.
 func (c *Client) ServerClosed() bool { return c.peer.closed }
+
+// PendingBytes is what has arrived for the client and has not been read yet.
+func (c *Client) PendingBytes() []byte { return append([]byte(nil), c.rbuf...) }
 
 // Pending is the number of bytes the server has sent that the client has not read yet.
 func (c *Client) Pending() int { return len(c.rbuf) }
